@@ -210,8 +210,18 @@ func VerifH_C09_autoname() {
 func VerifH_C15_importOrder() {
 	render := func(arbitrary bool) []verifSpec {
 		imps := []*verifImp{{name: "fmt", path: "fmt", used: true}, {name: "fmt", path: "a/fmt", used: true}, {name: "os", path: "os", forced: true}, {name: "io", path: "io", used: true}}
+		switch vp.Choose("table", 4) {
+		case 0:
+			imps = imps[:2+vp.Choose("nimp", 3)]
+		case 1: // two side-effect (blank) imports
+			imps = []*verifImp{{name: "os", path: "os", forced: true}, {name: "io", path: "io", forced: true}}
+		case 2: // blank imports mixed with a used one
+			imps = []*verifImp{{name: "os", path: "os", forced: true}, {name: "fmt", path: "fmt", used: true}, {name: "io", path: "io", forced: true}}
+		case 3: // three blank imports, one of them sharing a base name with a used import
+			imps = []*verifImp{{name: "fmt", path: "a/fmt", forced: true}, {name: "os", path: "os", forced: true}, {name: "io", path: "io", forced: true}, {name: "fmt", path: "fmt", used: true}}
+		}
 		pkg := verifNewPkg()
-		verifBuildImports(pkg, imps[:2+vp.Choose("nimp", 3)], nil)
+		verifBuildImports(pkg, imps, nil)
 		vp.MapOrder(arbitrary)
 		decls := pkg.file.getDecls(pkg)
 		vp.MapOrder(false)
